@@ -154,3 +154,7 @@ Proof. apply repeat_length. Qed.
 
 Lemma or3_ge n : n <= or3 n.
 Proof. unfold or3. pose proof (Nat.mod_upper_bound n 4). lia. Qed.
+
+(* the linear-time reversal of StrSpec is List.rev *)
+Lemma frev_rev {A} (l : list A) : frev l = rev l.
+Proof. unfold frev. symmetry. apply rev_alt. Qed.
